@@ -16,14 +16,18 @@ from vpc.core import cN, clist, cpair
 
 IMPORTS = "Require Import V.gen.Consts V.model.ClientRead V.model.SelfEnc."
 THEOREMS = ["se_constants", "partition_exact", "src_chunk_bound", "src_chunk_le_max",
-            "src_chunk_le_max_at_boundary_refuted", "roundtrip", "pack_terminates", "pack_side_condition",
+            "src_chunk_le_max_at_boundary_refuted", "roundtrip", "roundtrip_any_store", "datamap_content_roundtrips",
+            "tag_blind_unpacking_refuted", "pack_terminates", "pack_side_condition",
             "fetch_order_irrelevant", "deterministic", "content_addressed", "root_chunk_le_max",
             "produced_chunk_le_max_refuted", "produced_chunk_le_max_outside_known", "pack_accepted_by_size_acceptor", "too_small_rejected", "codec_laws_satisfiable"]
 RULE = ("lengths 0-9 and every size-class boundary of the partition (3*MAX, k*MAX for k=4..6, each -1/0/+1, plus "
         "lengths inside each class) for the shipped MAX_CHUNK_SIZE; for the MAX_CHUNK_SIZE=1024 build additionally "
         "the lengths at which the data map starts to need a second and a third level (+-1 chunk); contents "
         "all-zero / text (compressible), arithmetic sequence, pseudo-random (incompressible); private and public "
-        "reads; completion order of concurrent chunk fetches drawn from a per-case seed.  A case is distinct/"
+        "reads; completion order of concurrent chunk fetches drawn from a per-case seed; self-referential contents "
+        "(the stored bytes are the data-map chunk of an earlier upload, its rmp serialisation as a Chunk, First / "
+        "Additional wrappers around its map, prefixes / suffixes / extensions of those, with the earlier upload's "
+        "chunks still on the network).  A case is distinct/"
         "non-trivial by (build, length, content kind, read mode, number of levels)")
 ASSUMPTIONS = ["brotli, AES-128-CBC, the XOR pad and rmp_serde are third-party: the model takes them as a record of "
                "functions with the law untr(tr x) = x / decode(encode v) = v (premises of the theorems, exercised by "
@@ -66,6 +70,32 @@ FILLS = ("zero", "text", "seq", "rand")
 def mk(n, fill, rng, mode=None, build="default"):
     return {"op": "data", "kind": "data/%s/%s" % (build, fill), "len": n, "fill": fill, "seed": rng.randrange(1, 10 ** 9),
             "mode": mode or rng.choice(["private", "public"]), "order_seed": rng.randrange(0, 1000), "build": build}
+
+
+SELFREF = ("map_value", "map_chunk_ser", "first_wrap", "additional_wrap", "first_wrap_ser", "additional_wrap_ser",
+           "content_chunk_ser")
+
+
+def gen_selfref(ctx, build, inner_lens):
+    """contents that are themselves (derived from) the data map of an earlier upload U -- a backup copy of a
+    private data map, a serialised data-map chunk, DataMapLevel wrappers around U's map, prefixes / suffixes /
+    extensions of those; U's chunks stay on the in-memory network during the read.  The read must return the
+    stored bytes, not U's plaintext: the level loop is driven by the First/Additional tag, not by what the
+    decrypted bytes happen to parse as."""
+    rng = ctx.rng
+    cases = []
+    for n in inner_lens:
+        for kind in SELFREF:
+            cuts = [None, {"prefix": rng.randrange(3, 300)}, {"suffix": rng.randrange(3, 300)}, {"append": "00"},
+                    {"append": "c0ffee"}]
+            for cut in (cuts if ctx.tier != "quick" else [None, rng.choice(cuts[1:])]):
+                c = {"op": "data", "kind": "data/%s/selfref/%s" % (build, kind), "len": 0, "fill": "selfref", "selfref": kind,
+                     "inner": {"len": n, "fill": rng.choice(["rand", "text"]), "seed": rng.randrange(1, 10 ** 9)},
+                     "mode": rng.choice(["private", "public"]), "order_seed": rng.randrange(0, 1000), "build": build}
+                if cut:
+                    c["cut"] = cut
+                cases.append(c)
+    return cases
 
 
 def gen_default(ctx, MAX):
@@ -119,7 +149,7 @@ def oracle(c, o):
     if "panic" in o:
         return [("panic", "encrypt/read of %d bytes panicked: %s" % (c["len"], o["panic"]))]
     v = []
-    n = c["len"]
+    n = o.get("data_len", c["len"])     # self-referential contents: only the harness knows the length
     if n < 3:
         if o.get("enc") == "ok":
             v.append(("too-small-accepted", "an input of %d bytes was self-encrypted instead of being rejected" % n))
@@ -180,7 +210,7 @@ def ser_len(n):
 def model_term(c, o):
     if "panic" in o:
         return "false"
-    n = c["len"]
+    n = o.get("data_len", c["len"])
     if o.get("enc") != "ok":
         return "(%s <? MIN_ENCRYPTABLE)" % cN(n)
     MAX = o["max_chunk_size"]
@@ -201,6 +231,7 @@ def model_term(c, o):
 
 
 def show(c, o):
+    c = dict(c, len=o.get("data_len", c["len"]))
     MAX = o.get("max_chunk_size", 1048576)
     return "(num_chunks %s %s, map (chunk_size %s %s) (nseq (N.min 8 (num_chunks %s %s))))" % (
         cN(MAX), cN(c["len"]), cN(MAX), cN(c["len"]), cN(MAX), cN(c["len"]))
@@ -209,7 +240,7 @@ def show(c, o):
 def nontrivial(c, o):
     if "panic" in o:
         return None
-    return (c.get("build"), c["len"], c["fill"], c["mode"], len(o.get("levels", [])), o.get("enc"))
+    return (c.get("build"), o.get("data_len", c["len"]), c["fill"], c.get("selfref"), c["mode"], len(o.get("levels", [])), o.get("enc"))
 
 
 def run(ctx):
@@ -228,8 +259,9 @@ def run(ctx):
     cases_d = [c for c in corpus if c.get("build", "default") == "default"]
     cases_s = [c for c in corpus if c.get("build") == "small"]
     if not ctx.replay:
-        cases_d += gen_default(ctx, 1048576)
-        cases_s += gen_small(ctx)
+        cases_d += gen_default(ctx, 1048576) + gen_selfref(ctx, "default", [3, 10000] if ctx.tier == "quick" else [3, 100, 10000, 300000])
+        # with the reduced MAX_CHUNK_SIZE the earlier upload's own data map has one, two and three levels
+        cases_s += gen_small(ctx) + gen_selfref(ctx, "small", [3000, 12000] if ctx.tier == "quick" else [3000, 12000, 40000, 200000])
     rel = "self_encryption partition + autonomi pack_data_map levels == SelfEnc.{num_chunks, chunk_size, start_end, pack acceptor}"
     pipeline_retry(ctx, "props/C14.v", cases_d, binary, oracle, model_term, IMPORTS, nontrivial=nontrivial, show=show, relation=rel)
     if small:
